@@ -54,7 +54,7 @@ def chain_digests(per, klens):
     h = 7
     res = []
     cache = [None] * 4
-    for o_abs, _raw, dmp in per:
+    for o_abs, _raw, dmp, _nested in per:
         h = hmix(h, len(o_abs))
         for w in o_abs:
             h = hmix(h, w)
@@ -409,6 +409,73 @@ class Gen:
         self.count("burst_mid_threads", n)
         return {"kind": "burst_mid", "wf": True, "ops": ops}
 
+    def faults(self):
+        """map helper failures inside the hooks (-EBUSY / -ENOMEM / -E2BIG on the k-th update, -EBUSY on a delete)"""
+        r = self.rng
+        procs = self.processes((1, 3), (1, 2))
+        ts = [t for p in procs for t in p]
+        eps = r.sample(self.endpoints, r.randint(1, 3))
+        ops = [{"op": "AP+", "ip": ip, "port": port, "lp": self.local_port()} for ip, port in eps]
+        if r.random() < 0.3:
+            ops.append({"op": "AS", "pid": r.choice(procs)[0][0]})
+        sports = iter(r.sample(range(1024, 65536), 16))
+        nconn = r.randint(2, 6)
+        faulty = r.randrange(nconn)       # one injected failure per script (single-fault assumption)
+        for ci in range(nconn):
+            t = r.choice(ts)
+            if r.random() < 0.8:
+                ip, port = r.choice(eps)
+                proto = TCP
+            else:
+                ip, port, proto = self.dest()
+            c = [{"op": "C4", "t": t, "ip": ip, "port": port, "proto": proto}]
+            if proto == TCP:
+                c.append({"op": "TC", "t": t, "sport": next(sports)})
+            x = r.random() if ci == faulty else 1.0
+            if x < 0.45:        # the local_map update inside connect4 fails
+                ops += [{"op": "FAIL", "kind": 1, "k": 1, "errno": r.choice([16, 12, 7])}] + c
+            elif x < 0.70 and len(c) == 2:      # the audit_map update inside the kprobe fails
+                ops += [c[0], {"op": "FAIL", "kind": 1, "k": 1, "errno": r.choice([16, 12])}, c[1]]
+            elif x < 0.85 and len(c) == 2:      # the local_map delete inside the kprobe fails
+                ops += [c[0], {"op": "FAIL", "kind": 2, "k": 1, "errno": 16}, c[1]]
+            else:
+                ops += c
+        self.count("fault_scripts")
+        return {"kind": "faults", "wf": True, "nomodel": True, "ops": ops}
+
+    def sched(self):
+        """another caller's hook runs on another CPU between two map helper calls of this caller's hook"""
+        r = self.rng
+        used = set()
+        ta = (self.new_id(used), 0, self.cred(), self.cred())
+        ta = (ta[0], r.choice([ta[0], self.new_id(used)]), ta[2], ta[3])
+        tb = (self.new_id(used), 0, r.choice([0, 0, self.cred()]), r.choice([0, self.cred()]))
+        tb = (tb[0], r.choice([tb[0], self.new_id(used)]), tb[2], tb[3])
+        if r.random() < 0.2:
+            tb = (ta[0], self.new_id(used), tb[2], tb[3])      # two threads of one process
+        (xa, pa), (xb, pb) = r.choice(self.endpoints), r.choice(self.endpoints)
+        sa, sb = r.sample(range(1024, 65536), 2)
+        ops = [{"op": "AP+", "ip": xa, "port": pa, "lp": self.proxy_port}]
+        if (xb, pb) != (xa, pa):
+            ops.append({"op": "AP+", "ip": xb, "port": pb, "lp": self.proxy_port})
+        c4a = {"op": "C4", "t": ta, "ip": xa, "port": pa, "proto": TCP}
+        c4b = {"op": "C4", "t": tb, "ip": xb, "port": pb, "proto": TCP}
+        tca = {"op": "TC", "t": ta, "sport": sa}
+        tcb = {"op": "TC", "t": tb, "sport": sb}
+        k = r.randint(1, 5)
+        shape = r.choice(["tc_c4", "tc_c4", "tc_c4", "tc_tc", "c4_c4", "c4_tc"])
+        if shape == "tc_c4":        # A is inside the kprobe, B enters connect4
+            ops += [c4a, {"op": "SCHED", "k": k, "nested": c4b}, tca, tcb]
+        elif shape == "tc_tc":
+            ops += [c4a, c4b, {"op": "SCHED", "k": k, "nested": tcb}, tca]
+        elif shape == "c4_c4":
+            ops += [{"op": "SCHED", "k": k, "nested": c4b}, c4a, tca, tcb]
+        else:
+            ops += [c4b, {"op": "SCHED", "k": k, "nested": tcb}, c4a, tca]
+        self.count("sched_scripts")
+        self.count("sched_" + shape)
+        return {"kind": "sched", "wf": True, "nomodel": True, "ops": ops}
+
     def f4_witness(self, uid, gid):
         ip, port = self.endpoints[0]
         t = (100, 101, uid, gid)
@@ -446,6 +513,8 @@ def needs(scripts):
                 req.add(r)
             if o["op"] in ("TC", "AA-"):
                 req.add("LOOKUP %d" % (o["sport"] & 0xFFFF))     # the key the agent will ask for
+            if o["op"] == "SCHED" and o["nested"]["op"] == "TC":
+                req.add("LOOKUP %d" % (o["nested"]["sport"] & 0xFFFF))
     return sorted(req)
 
 
@@ -523,6 +592,17 @@ def concretise(script, answers, odd):
         elif op == "TC":
             lines.append("TC %d %d %d %d %d" % (o["t"] + (o["sport"],)))
             terms.append("LTcpInflight %s %d" % (ct(o["t"]), o["sport"]))
+        elif op == "FAIL":
+            lines.append("FAIL %d %d %d" % (o["kind"], o["k"], o["errno"]))
+            terms.append("LEvent (EAuditLookup (@nil N))")       # scripts with faults are not run by the model
+        elif op == "SCHED":
+            h = o["nested"]
+            if h["op"] == "C4":
+                hl = "C4 %d %d %d %d %d %d %d" % (h["t"] + (h["ip"], bswap16(h["port"] & 0xFFFF), h["proto"]))
+            else:
+                hl = "TC %d %d %d %d %d" % (h["t"] + (h["sport"],))
+            lines.append("SCHED %d %s" % (o["k"], hl))
+            terms.append("LEvent (EAuditLookup (@nil N))")
         elif op == "TCX":
             lines.append("TCX %d %d %d %d %d %d %d %d" % (o["t"] + (o["family"], o["sport"], o["daddr"], o["dport"])))
             terms.append("LEvent (ETcpConnect %s %d %d %d %d)" % (ct(o["t"]), o["family"], o["sport"], o["daddr"], o["dport"]))
@@ -699,6 +779,98 @@ def property_failures(script, lines, spans, louts, ldumps, enc, decode, caps, pr
     return fails
 
 
+def lenient_failures(script, lines, spans, louts, ldumps, lnested, enc, decode, proxy_ip, caps_line):
+    """the property under map-helper failures and with another caller's hook between two helper calls
+    (scripts of kind `faults` / `sched`): a protected connect of a non-exempt process is diverted whatever fails
+    (redirected-or-refused, never passed on un-diverted), every other connect is left alone, and every record
+    states the kernel facts of the caller that made the connection.  A missing record is accepted only where a
+    failure was injected."""
+    fails = []
+    listed, skipped, pending = {}, set(), {}
+    nested = None
+    kind = script["kind"]
+
+    def fail(i, why, impl):
+        li = min(spans[i][0], len(lines) - 1)
+        fails.append({"case": {"script": lines, "line": li, "op": lines[li], "kind": kind,
+                               "agent_ops_in_order": [req_of(x) for x in script["ops"] if req_of(x)],
+                               "loader_max_entries(policy,skip,audit,local)": caps_line,
+                               "replay": "feed `CAPS <loader_max_entries>` and the script lines to ebpf_user/build/driver (user-space build of "
+                                         "the unmodified ebpf_cgroup.c); FAIL = the k-th update(1)/delete(2) helper call of the next hook fails, "
+                                         "SCHED k <hook> = another caller's hook runs after the k-th map helper call of the next hook"},
+                      "why": why, "impl": impl, "f4": False})
+
+    def c4(i, h, out, how):
+        t = h["t"]
+        must = h["proto"] == TCP and (h["ip"], h["port"]) in listed and t[0] not in skipped
+        if must:
+            lp = listed[(h["ip"], h["port"])]
+            if out != [1, proxy_ip, bswap16(lp)]:
+                fail(i, "connect of pid %d (uid %d) to the protected %s:%d%s was passed on UN-DIVERTED (ctx %s:%d), not to the proxy listener 127.0.0.1:%d" % (
+                    t[0], t[2], dotted(h["ip"]), h["port"], how, dotted(out[1]), bswap16(out[2] & 0xFFFF), lp), out)
+            pending[(t[0], t[1])] = {"uid": t[2], "gid": t[3], "tgid": t[0], "ip": h["ip"], "port": h["port"]}
+        else:
+            if out != [1, h["ip"], bswap16(h["port"] & 0xFFFF)]:
+                fail(i, "connect to %s:%d proto %d (not a protected TCP connect by a non-exempt process)%s was rewritten to %s:%d" % (
+                    dotted(h["ip"]), h["port"], h["proto"], how, dotted(out[1]), bswap16(out[2] & 0xFFFF)), out)
+            pending.pop((t[0], t[1]), None)
+
+    def tc(i, h, audit_a, how):
+        t = h["t"]
+        exp = pending.pop((t[0], t[1]), None)
+        if exp is None:
+            return
+        ak = audit_key_of(enc, h["sport"])
+        rec = [e for e in audit_a if e[:2] == ak]
+        if not rec:
+            if kind != "faults":
+                fail(i, "no audit record for source port %d after the redirected connect of pid %d tid %d to %s:%d%s" % (
+                    h["sport"], t[0], t[1], dotted(exp["ip"]), exp["port"], how), {"audit": audit_a[:4]})
+            return
+        d = decode.get(tuple(rec[0][2:]))
+        want = {"logon_id": exp["uid"], "process_id": exp["tgid"], "is_admin": 1 if exp["uid"] == 0 else 0,
+                "ip": dotted(exp["ip"]), "port": exp["port"]}
+        got = None if d is None else {"logon_id": d[0], "process_id": d[1], "is_admin": d[2], "ip": d[5], "port": d[6]}
+        if got != want:
+            fail(i, "the record for source port %d%s says %r; the connection was made by %r (uid=%d gid=%d)" % (
+                h["sport"], how, got, want, exp["uid"], exp["gid"]), {"decoded": got, "words": rec[0][2:]})
+
+    armed = ""
+    for i, o in enumerate(script["ops"]):
+        first, cnt = spans[i]
+        op = o["op"]
+        last = first + cnt - 1
+        done = cnt > 0 and all(louts[j] == [0] for j in range(first, first + cnt))
+        if op == "AP+":
+            if done or cnt == 0:
+                listed[(o["ip"], o["port"])] = o["lp"]
+        elif op == "AP-":
+            listed.pop((o["ip"], o["port"]), None)
+        elif op == "AS":
+            if done or cnt == 0:
+                skipped.add(o["pid"])
+        elif op == "FAIL":
+            armed = " while its %s helper call #%d failed with errno %d" % ({1: "bpf_map_update_elem", 2: "bpf_map_delete_elem"}[o["kind"]], o["k"], o["errno"])
+        elif op == "SCHED":
+            nested = o
+        elif op in ("C4", "TC"):
+            hooks = [(o, louts[last], armed)]
+            if nested is not None:
+                n = lnested[last] or [0]
+                where = (" (run on another CPU after map helper call #%d of `%s`)" % (nested["k"], lines[last])) if n[0] else " (run right after the previous hook)"
+                hooks.append((nested["nested"], n[1:], where))
+                hooks[0] = (o, louts[last], armed + ((" (with `%s` on another CPU after its map helper call #%d)" % (lines[last - 1].split(" ", 2)[2], nested["k"])) if n[0] else ""))
+            for h, hout, how in hooks:
+                if h["op"] == "C4":
+                    c4(i, h, hout, how)
+            for h, hout, how in hooks:
+                if h["op"] == "TC":
+                    tc(i, h, ldumps[last][2], how)
+            nested = None
+            armed = ""
+    return fails
+
+
 # ------------------------------------------------------------------------------------------------
 def build_map_object(ctx, geo):
     """a BPF object file that carries only the four map definitions, with the geometry the C side
@@ -809,6 +981,8 @@ def run(ctx):
         scripts += [g.map_caps() for _ in range(nburst * 6)]
         scripts += [g.policy_paths() for _ in range(nnormal // 8)]
         scripts += [g.burst_mid() for _ in range(nburst * 3)]
+        scripts += [g.faults() for _ in range(nnormal // 6)]
+        scripts += [g.sched() for _ in range(nnormal // 3)]
         scripts += [g.illformed() for _ in range(nill)]
         corpus_dir = os.path.join(vplib.VERIF, "corpus", "C06")
         if os.path.isdir(corpus_dir):
@@ -849,7 +1023,7 @@ def run(ctx):
             per = []
             for _l in lines:
                 r = json.loads(raw[pos])
-                per.append(([abs(x) for x in r[0]], r[0], r[1:]))
+                per.append(([abs(x) for x in r[0]], r[0], r[1:5], r[5] if len(r) > 5 else None))
                 pos += 1
             impl.append(per)
         ctx.log("driver: %d scripts, %d lines" % (len(scripts), len(all_lines) - len(scripts) - 1))
@@ -857,7 +1031,7 @@ def run(ctx):
         # ---------------- model: the same scripts by vm_compute ----------------
         prelude = ("Definition T a b c d := {| tgid := a; tid := b; uid := c; gid := d |}.\n"
                    "Definition SA a b c := {| sa_ip := a; sa_port := b; sa_proto := c |}.\n")
-        exprs = ["run_script_d %s" % term for _l, term, _sp in conc]
+        exprs = [("0" if s.get("nomodel") else "run_script_d %s" % term) for s, (_l, term, _sp) in zip(scripts, conc)]
         order = sorted(range(len(exprs)), key=lambda i: -len(exprs[i]))   # spread the heavy scripts over the shards
         nshard = 12
         buckets = [[] for _ in range(nshard)]
@@ -877,6 +1051,8 @@ def run(ctx):
         agree = 0
         located = 0
         for si, (s, (lines, term, _sp), per, m) in enumerate(zip(scripts, conc, impl, model)):
+            if s.get("nomodel"):
+                continue        # helper failures / sub-program interleavings: implementation only, judged by the property
             chain = chain_digests(per, klens)
             if (chain[-1] if chain else 7) == m:
                 agree += 1
@@ -956,7 +1132,7 @@ def run(ctx):
         #     real BpfObject::lookup_audit and the AuditEntry accessors
         vals = set()
         for per in impl:
-            for _a, o_raw, dmp in per:
+            for _a, o_raw, dmp, _nested in per:
                 for e in dmp[2]:
                     vals.add(tuple(e[klen["audit"]:]))
                 if len(o_raw) == 6 and o_raw[0] == 0:
@@ -1015,6 +1191,10 @@ def run(ctx):
             if not s["wf"]:
                 continue
             judged += 1
+            if s.get("nomodel"):
+                failures += lenient_failures(s, lines, spans, [p[1] for p in per], [p[2] for p in per], [p[3] for p in per], enc, decode,
+                                             consts["proxy_agent_ip_network_byte_order"], loaded_caps)
+                continue
             failures += property_failures(s, lines, spans, [p[1] for p in per], [p[2] for p in per], enc, decode, caps,
                                           consts["proxy_agent_ip_network_byte_order"], f4_stats)
     finally:
